@@ -46,7 +46,8 @@ Advance(guardFails) ==
 
 NoExpect == [files |-> FALSE, mayChange |-> <<>>, mustChange |-> <<>>,
              sites |-> FALSE, siteMay |-> <<>>, siteMust |-> <<>>, exit |-> -1,
-             sel |-> FALSE, queues |-> <<>>, faults |-> FALSE, mustFail |-> <<>>]
+             sel |-> FALSE, queues |-> <<>>, faults |-> FALSE, mustFail |-> <<>>,
+             deps |-> FALSE, cand |-> <<>>, mustOne |-> FALSE]
 
 TraceInit ==
   /\ tid \in 1..Len(Traces) /\ l = 1 /\ verdict = {} /\ expect = NoExpect /\ changed = {} /\ sites = <<>> /\ env = {}
@@ -153,6 +154,11 @@ TrDeps ==
           <<(e.store # NoC /\ e.store \in DOMAIN disk /\ cfg.dryRun) => e.post = disk[e.store], "Deps:dry-run-wrote">>,
           <<e.othersUntouched, "Deps:more-than-one-manifest-touched">>,
           <<e.shapeOk, "Deps:malformed-changeset">>,
+          <<(expect.deps /\ e.store # NoC) => e.store \in ToSet(expect.cand), "Deps:manifest-that-declares-the-package-or-cannot-take-it-was-changed">>,
+          <<(expect.deps /\ expect.mustOne /\ e.wanted) => e.store # NoC, "Deps:no-manifest-updated-although-one-could-be">>,
+          <<e.parsesOk, "Deps:manifest-no-longer-parses">>,
+          <<e.keptOk, "Deps:declared-requirement-or-comment-lost">>,
+          <<e.addedOk, "Deps:needed-requirement-not-added-exactly-once">>,
           <<e.err = "none", "Deps:exception-escaped">> >>))
 
 TrReportBuilt ==
